@@ -278,7 +278,7 @@ def run(pid, tier, replay=None):
             if e:
                 events.append(e)
                 chk.case((t, b + tail), nontrivial=True)
-        if len(b) > 3000 and quick:
+        if len(b) > 3000 and (quick or len(b) > 20000):      # (encodings of tens of kilobytes: the value and its followed_by forms only)
             continue
         try:
             muts = wiregen.mutations(t, b, rng, budget=budget)
